@@ -315,6 +315,33 @@ Proof.
       rewrite S1. fold e. rewrite <- !app_assoc, <- repeat_app. reflexivity.
 Qed.
 
+(* a run stopped at exhaustion is a run of a prefix of the operations *)
+Lemma spec_until_prefix cap ops : forall i,
+  exists ops', spec_run_until_exhausted EQ cap i ops = spec_run EQ cap i ops' /\ length ops' <= length ops.
+Proof.
+  induction ops as [|o ops IH]; intros i; cbn [spec_run_until_exhausted].
+  - exists []. auto.
+  - destruct (i_exhausted i); [exists []; split; [reflexivity|simpl; lia]|].
+    destruct (IH (fst (spec_step EQ cap i o))) as [ops' [H L]].
+    exists (o :: ops'). cbn [spec_run]. rewrite H. split; [reflexivity|simpl; lia].
+Qed.
+
+(* the padding is what completes the source to whole blocks: |rest| + j = cap * r *)
+Lemma spec_padding cap ops i : 1 <= cap ->
+  let i' := fst (spec_run_until_exhausted EQ cap i ops) in
+  let vs := snd (spec_run_until_exhausted EQ cap i ops) in
+  i_exhausted i' = true ->
+  exists j r, all_frames vs = q i ++ rest i ++ repeat EQ j /\ j < cap /\ length (rest i) + j = cap * r.
+Proof.
+  intros Hc i' vs Hx.
+  destruct (spec_padding_gen cap ops Hc i 0 Hc (fun _ => eq_refl) Hx) as [j [Hj Hlt]].
+  destruct (spec_until_prefix cap ops i) as [ops' [Hp _]].
+  destruct (spec_run_spec cap ops' Hc i) as [_ [_ [H3 _]]]. rewrite <- Hp in H3.
+  fold i' vs in H3, Hj. apply i_exhausted_true in Hx as [Hq _]. rewrite Hq, Hj in H3.
+  rewrite !app_length, repeat_length in H3. simpl in H3.
+  exists j, (refills EQ cap i ops'). split; [exact Hj|]. split; lia.
+Qed.
+
 (* one frame at a time reaches exhaustion within |q| + |rest| + cap steps *)
 Definition measure (cap : nat) (i : ideal A) : nat :=
   length (q i) + match rest i with [] => 0 | _ => length (rest i) + cap end.
@@ -420,20 +447,22 @@ Qed.
 Theorem buffered_padding fuel ops u : 2 <= fuel -> Inv (rb u) ->
   exists u' vs, run_until_exhausted EQ fuel u ops = Ok (u', vs) /\
     (is_exhausted u' = true ->
-     exists j, all_frames vs = abs (rb u) ++ src_rest (sig u) ++ repeat EQ j /\ j < max_len (rb u)).
+     exists j r, all_frames vs = abs (rb u) ++ src_rest (sig u) ++ repeat EQ j /\ j < max_len (rb u) /\
+                 length (src_rest (sig u)) + j = max_len (rb u) * r).
 Proof.
   intros Hf I. destruct (run_until_exhausted_refines fuel ops u Hf I) as [u' [vs [Hr [I' [C' Hs]]]]].
   exists u', vs. split; [exact Hr|]. intros Hx. rewrite (is_exhausted_abs u' I') in Hx.
-  pose proof (spec_padding_gen (max_len (rb u)) ops (inv_cap_pos _ I) (abs_u u) 0 (inv_cap_pos _ I) (fun _ => eq_refl)) as H.
-  rewrite Hs in H. cbn [fst snd] in H. destruct (H Hx) as [j [Hj Hlt]]. exists j. split; [exact Hj|lia].
+  pose proof (spec_padding (max_len (rb u)) ops (abs_u u) (inv_cap_pos _ I)) as H.
+  rewrite Hs in H. cbn [fst snd] in H. exact (H Hx).
 Qed.
 
 (* ... and pulling one frame at a time does reach that state. *)
 Theorem buffered_drain fuel m u : 2 <= fuel -> Inv (rb u) ->
   len (rb u) + length (src_rest (sig u)) + max_len (rb u) <= m ->
-  exists u' vs j, run_until_exhausted EQ fuel u (repeat BNext m) = Ok (u', vs) /\
+  exists u' vs j r, run_until_exhausted EQ fuel u (repeat BNext m) = Ok (u', vs) /\
     is_exhausted u' = true /\
-    all_frames vs = abs (rb u) ++ src_rest (sig u) ++ repeat EQ j /\ j < max_len (rb u).
+    all_frames vs = abs (rb u) ++ src_rest (sig u) ++ repeat EQ j /\ j < max_len (rb u) /\
+    length (src_rest (sig u)) + j = max_len (rb u) * r.
 Proof.
   intros Hf I Hm. destruct (buffered_padding fuel (repeat BNext m) u Hf I) as [u' [vs [Hr Hp]]].
   destruct (run_until_exhausted_refines fuel (repeat BNext m) u Hf I) as [u2 [vs2 [Hr2 [I2 [C2 Hs2]]]]].
@@ -443,7 +472,7 @@ Proof.
     pose proof (spec_drain_terminates (max_len (rb u)) (inv_cap_pos _ I) m (abs_u u)) as Ht.
     rewrite Hs2 in Ht. apply Ht. unfold measure, abs_u; cbn [q rest]. rewrite (abs_length _ I).
     destruct (src_rest (sig u)); simpl in *; lia. }
-  destruct (Hp Hx) as [j [Hj Hlt]]. exists u', vs, j. auto.
+  destruct (Hp Hx) as [j [r [Hj [Hlt Hm']]]]. exists u', vs, j, r. auto.
 Qed.
 
 End Proofs.
